@@ -2008,7 +2008,7 @@ bool CanettiGennaroJareckiKrawczykRabinDKG::Generate
 	mpz_t foo, bar, lhs, rhs;
 	mpz_t d, r_i, rprime_i;
 	std::vector<mpz_ptr> A_i, B_i, T_i, Tprime_i, z_i, d_i, dprime_i;
-	std::vector<size_t> complaints, complaints_counter, complaints_from, d_complaints;
+	std::vector<size_t> complaints, complaints_counter, complaints_from, d_complaints, erased;
 	mpz_init(foo), mpz_init(bar), mpz_init(lhs), mpz_init(rhs);
 	mpz_init(d), mpz_init(r_i), mpz_init(rprime_i);
 	for (size_t j = 0; j < n; j++)
@@ -2152,6 +2152,7 @@ bool CanettiGennaroJareckiKrawczykRabinDKG::Generate
 				err << "DKG(" << label << "): P_" << idx2dkg[i] << ": WARNING - party erased from QUAL; complaint against P_" << idx2dkg[j] << std::endl;
 				QUAL.erase(it);
 				complaints.push_back(idx2dkg[j]);
+				erased.push_back(idx2dkg[j]); // its $z_j$ is still part of every share $x_i$
 			}
 		}
 		// 4. Each player broadcasts $d_i$ (and $d\prime_i$ for the optimally-resilient variant).
@@ -2374,6 +2375,11 @@ bool CanettiGennaroJareckiKrawczykRabinDKG::Generate
 					complaints.push_back(idx2dkg[j]);
 			}
 		}
+		// A player that passed Joint-RVSS for $x$ but was disqualified in the Joint-RVSS for
+		// the challenge has contributed to all shares $x_i$; like any other player failing
+		// the extraction its $z_j$ must be reconstructed and enter $y$.
+		for (std::vector<size_t>::iterator et = erased.begin(); et != erased.end(); ++et)
+			complaints.push_back(*et);
 		std::sort(complaints.begin(), complaints.end());
 		it = std::unique(complaints.begin(), complaints.end());
 		complaints.resize(std::distance(complaints.begin(), it));
@@ -2395,6 +2401,11 @@ bool CanettiGennaroJareckiKrawczykRabinDKG::Generate
 		{
 			err << "P_" << *it << " ";
 			mpz_mul(y, y, A_i[dkg2idx[*it]]);
+			mpz_mod(y, y, p);
+		}
+		for (std::vector<size_t>::iterator et = erased.begin(); et != erased.end(); ++et)
+		{
+			mpz_mul(y, y, A_i[dkg2idx[*et]]);
 			mpz_mod(y, y, p);
 		}
 		err << "}" << std::endl;
